@@ -176,9 +176,53 @@ def definition_changes(repo, rel):
             # new API under a name nobody could have used -- unless binding it RUNS something: a module- or class-level
             # statement executes at import (wave m: `for _name in ("Moon", "Sun"): get_frame(_name)` at the end of
             # solarsystem.py registered two more centres called Moon and Sun; `X = Frame("EME2000", ...)` would re-register)
+            # ... or unless the name is one a COMPUTED look-up can produce: `getattr(self, f"_scale_{two}_minus_{one}")`,
+            # `f"_{a}_to_{b}"`, `f"{a}_to_{b}"` pick a method by a name that occurs nowhere as an identifier (wave m: a new
+            # `Timescale._scale_utc_minus_tai` took over every TAI -> UTC step by its mere presence)
+            if any(rx.fullmatch(name) for rx in _computed_name_patterns(repo)):
+                out.append(("added", k))
+                continue
             if "#" not in k or _binding_is_effect_free(repo, rel, k):
                 continue
         out.append(("added", k))
+    return out
+
+
+def _computed_name_patterns(repo):
+    """Regular expressions of the attribute names the package builds at run time: f-strings that reach the name argument
+    of getattr / hasattr / setattr, directly or through a local of the same function."""
+    import re
+    if "_e8_dyn_names" in repo.__dict__:
+        return repo.__dict__["_e8_dyn_names"]
+    pats = set()
+
+    def rx_of(js):
+        parts = []
+        for v in js.values:
+            if isinstance(v, ast.Constant):
+                parts.append(re.escape(str(v.value)))
+            else:
+                parts.append(".+")
+        return "".join(parts)
+    for m in repo.modules.values():
+        tree = ast.parse(m.source)
+        for fn in ast.walk(tree):
+            if not isinstance(fn, (ast.FunctionDef, ast.AsyncFunctionDef)):
+                continue
+            local = {}
+            for n in ast.walk(fn):
+                if isinstance(n, ast.Assign) and len(n.targets) == 1 and isinstance(n.targets[0], ast.Name) and isinstance(n.value, ast.JoinedStr):
+                    local.setdefault(n.targets[0].id, []).append(n.value)
+            for n in ast.walk(fn):
+                if isinstance(n, ast.Call) and isinstance(n.func, ast.Name) and n.func.id in ("getattr", "hasattr", "setattr") and len(n.args) >= 2:
+                    a = n.args[1]
+                    if isinstance(a, ast.JoinedStr):
+                        pats.add(rx_of(a))
+                    elif isinstance(a, ast.Name):
+                        for js in local.get(a.id, []):
+                            pats.add(rx_of(js))
+    out = [re.compile(p) for p in sorted(pats) if p.replace(".+", "")]       # a pattern of wildcards only says nothing
+    repo.__dict__["_e8_dyn_names"] = out
     return out
 
 
